@@ -709,9 +709,35 @@ def wipeout_spec(draw):
 
 
 @st.composite
+def exact_fee_spec(draw):
+    """trades whose proceeds equal their commission exactly (a minimum ticket charge on a small residual lot: one unit sold at 10.0 under a
+    flat fee of 10.0), so that the net cash movement of the trade is exactly zero while a fee is still due and has to be recorded"""
+    ds = draw(gen.dates(2, 5, kinds=("bday", "daily")))
+    n = len(ds)
+    p0 = draw(st.sampled_from([10.0, 16.0, 2.5]))
+    nested = draw(st.booleans())
+    tree = {"name": "root", "kind": "StrategyBase", "children": ([{"name": "s1", "kind": "StrategyBase", "children": ["a"]}] if nested else []) + ["a", "b"]}
+    units = draw(st.sampled_from([1, 2, 4]))
+    spec = {"dates": ds, "prices": {"a": [p0] * n, "b": draw(gen.price_path(n))}, "tree": tree, "integer": True, "capital": 1e6, "fee": {"kind": "fixed", "f": p0 * units}}
+    path = "root>s1" if nested else "root"
+    ops = ([["alloc_child", "root", "s1", 0.2]] if nested else []) + [["alloc_child", path, "a", 0.1]]
+    # selling `units` units raises exactly the ticket charge
+    sell = ["transact", path, "a", -(p0 * units) / 1e6, None]
+    paths = strategy_paths(tree)
+    tail = draw(st.lists(op_spec(paths, False), min_size=0, max_size=5))
+    k = draw(st.integers(0, len(tail)))
+    spec["ops"] = ops + tail[:k] + [sell] + draw(st.sampled_from([[], [["next"]], [sell]])) + tail[k:]
+    spec["exact_fee"] = True
+    return spec
+
+
+@st.composite
 def history_spec(draw, min_ops=3, max_ops=25, max_dates=8, costs=True, allow_mult=True):
-    if draw(st.integers(0, 11)) == 0:
+    k_ = draw(st.integers(0, 23))
+    if k_ <= 1:
         return draw(wipeout_spec())
+    if k_ == 2 and costs:
+        return draw(exact_fee_spec())
     ds = draw(gen.dates(2, max_dates, kinds=("bday", "daily", "mixed", "intraday")))
     n = len(ds)
     nt = draw(st.integers(1, 4))
@@ -781,6 +807,8 @@ def history_labels(spec, run):
         labs.append("fee_installed_before_composition")
     if spec.get("wipeout"):
         labs.append("substrategy_value_exactly_zero")
+    if spec.get("exact_fee"):
+        labs.append("proceeds_equal_commission")
     if spec.get("bidoffer"):
         labs.append("spread")
     if spec["integer"]:
